@@ -3,7 +3,7 @@
 patch=$1; shift
 cd /repo || exit 2
 if [ -n "$(git status --porcelain --untracked-files=no)" ]; then echo "/repo not clean"; exit 2; fi
-git apply "$patch" 2>/dev/null || git apply --3way "$patch" || { echo "patch does not apply"; exit 2; }
+git apply --check "$patch" 2>/dev/null && git apply "$patch" || { echo "patch does not apply"; exit 2; }
 trap 'git -C /repo checkout -- . ' EXIT
 cd /verif
 for id in "$@"; do
